@@ -311,6 +311,135 @@ theorem dcgain_ss_pole {n p m : Nat} (G : SS (Fin n) (Fin m) (Fin p) K) (dt : Dt
   intro h
   exact hs ((ss_finite_iff G _ i j).mp h)
 
+/-! ### `_dcgain`: the real-part post-processing keeps every value (complex coefficients) -/
+
+/-- the component pattern refines the outcome class of a complex division. -/
+theorem ieeeDivCx_cls (P : Parts K) (n d : K) : (ieeeDivCx P n d).cls = ieeeDiv n d := by
+  unfold ieeeDivCx ieeeDiv
+  by_cases hd : d = 0
+  · simp only [hd, if_true, Cx.cls]
+    by_cases hn : n = 0
+    · subst hn
+      obtain ⟨h1, h2⟩ := (P.zero_iff 0).mp rfl
+      simp [h1, h2]
+    · rw [if_neg hn]
+      have : ¬ (P.reZero n = true ∧ P.isReal n = true) := fun h => hn ((P.zero_iff n).mpr h)
+      cases h1 : P.reZero n <;> cases h2 : P.isReal n <;> simp_all
+  · simp [hd, Cx.cls]
+
+theorem ssCx_cls (v : IVal K) : (ssCx v).cls = v := by
+  cases v <;> simp [ssCx, Cx.cls]
+
+/-- `sys(x)` with component patterns is `sys(x)`. -/
+theorem call1Cx_cls (P : Parts K) (L : LTI K) (x : K) (i : Fin L.p) (j : Fin L.m) :
+    (call1Cx P L x i j).cls = call1 L x i j := by
+  cases L with
+  | tf p m e dt =>
+    simp only [call1Cx, call1, tfHornerCx, tfHorner, Matrix.of_apply]
+    exact ieeeDivCx_cls P _ _
+  | ss ns p m G dt =>
+    simp only [call1Cx, call1, Matrix.of_apply]
+    exact ssCx_cls _
+
+theorem allPass_iff (P : Parts K) {p m : Nat} (M : Matrix (Fin p) (Fin m) (Cx K)) :
+    allPass P M = true ↔ ∀ i j, P.passes (M i j) = true := by
+  simp [allPass, List.all_eq_true]
+
+/-- an entry that passes the test of `_dcgain` is not changed by `.real`: a real number is its own
+real part; `inf + nan j` becomes `inf`, `nan + nan j` becomes `nan`. -/
+theorem reCls_of_passes (P : Parts K) (c : Cx K) (h : P.passes c = true) : P.reCls c = c.cls := by
+  cases c with
+  | fin z => simp only [Parts.reCls, Cx.cls]; rw [P.re_of_real z h]
+  | div0 r i =>
+    simp only [Parts.passes, Bool.not_eq_true'] at h
+    subst h
+    cases r <;> simp [Parts.reCls, Cx.cls]
+
+/-- **the post-processing of `_dcgain` never changes a value**: whatever mixture of real, complex,
+infinite and NaN entries the zero-frequency response has, every entry of the result has the class
+and the value of the corresponding entry of the response. -/
+theorem dcPost_value (P : Parts K) {p m : Nat} (M : Matrix (Fin p) (Fin m) (Cx K))
+    (i : Fin p) (j : Fin m) : (dcPost P M).2 i j = (M i j).cls := by
+  unfold dcPost
+  by_cases h : allPass P M = true
+  · rw [if_pos h]
+    exact reCls_of_passes P _ ((allPass_iff P M).mp h i j)
+  · rw [if_neg h]; rfl
+
+/-- the result is a real array exactly when every entry is real or has a NaN imaginary
+component. -/
+theorem dcPost_real_iff (P : Parts K) {p m : Nat} (M : Matrix (Fin p) (Fin m) (Cx K)) :
+    (dcPost P M).1 = true ↔ ∀ i j, P.passes (M i j) = true := by
+  unfold dcPost
+  by_cases h : allPass P M = true
+  · rw [if_pos h]; simpa using (allPass_iff P M).mp h
+  · rw [if_neg h]
+    simp only [Bool.false_eq_true, false_iff]
+    exact fun h' => h ((allPass_iff P M).mpr h')
+
+/-- **`dcgain()` as the code computes it (evaluation, then the real-part post-processing) is the
+value of the system at `s = 0` / `z = 1`**, also for complex coefficients. -/
+theorem dcgain_code_value (P : Parts K) (L : LTI K) (i : Fin L.p) (j : Fin L.m) :
+    (dcgainCode P L).2 i j = dcgain L i j := by
+  unfold dcgainCode dcgain
+  rw [dcPost_value, call1Cx_cls]
+
+/-- a state-space system (real data, evaluated at a real point: every finite entry real) always
+gets a real array: the entries written at a pole have a NaN imaginary component. -/
+theorem dcgain_code_real_ss (P : Parts K) {n p m : Nat} (G : SS (Fin n) (Fin m) (Fin p) K)
+    (dt : Dt) (hreal : ∀ i j z, dcgain (.ss n p m G dt) i j = .fin z → P.isReal z = true) :
+    (dcgainCode P (.ss n p m G dt)).1 = true := by
+  unfold dcgainCode
+  rw [dcPost_real_iff]
+  intro i j
+  have hr := hreal i j
+  simp only [dcgain, call1] at hr
+  show P.passes (ssCx (ssHorner G (dcPoint dt) i j)) = true
+  cases h : ssHorner G (dcPoint dt) i j with
+  | fin z => exact hr z h
+  | inf => rfl
+  | nan => rfl
+
+/-- **`np.any` in place of `np.all` breaks the property**: as soon as one entry passes the test
+the real part is taken everywhere, and every finite entry that is not its own real part changes. -/
+theorem dcPostAny_changes (P : Parts K) {p m : Nat} (M : Matrix (Fin p) (Fin m) (Cx K))
+    (i₀ : Fin p) (j₀ : Fin m) (hpass : P.passes (M i₀ j₀) = true)
+    (i : Fin p) (j : Fin m) (z : K) (hz : M i j = .fin z) (hre : P.re z ≠ z) :
+    (dcPostAny P M).2 i j ≠ (M i j).cls := by
+  have hany : anyPass P M = true := by
+    simp only [anyPass, List.any_eq_true]
+    exact ⟨i₀, List.mem_finRange _, j₀, List.mem_finRange _, hpass⟩
+  unfold dcPostAny
+  rw [if_pos hany]
+  simp only [Matrix.of_apply, hz, Parts.reCls, Cx.cls]
+  intro h
+  exact hre (IVal.fin.inj h)
+
+/-- `G(s) = [1/(s+1), j/(s+2)]`: `G(0) = [1, j/2]`, a complex array with the values unchanged;
+with `np.any` the second entry would become `0`. -/
+example :
+    let e : Fin 1 → Fin 2 → Frac QI := fun _ j => if j = 0 then ⟨[1], [1, 1]⟩ else ⟨[QI.I], [1, 2]⟩
+    let r := dcgainCode partsQI (.tf 1 2 e .cont)
+    r.1 = false ∧ r.2 (0 : Fin 1) (0 : Fin 2) = .fin 1 ∧ r.2 (0 : Fin 1) (1 : Fin 2) = .fin ⟨0, 1 / 2⟩ ∧
+    (dcPostAny partsQI (tfHornerCx partsQI e 0)).2 0 1 = .fin 0 := by
+  decide +kernel
+
+/-- `[1/s, j/s, 0/s, 2]` at `0`: `inf + nan j` and `nan + nan j` pass the test, `nan + inf j` does
+not: a complex array with classes `inf, inf, nan, 2`; without the second entry a real array. -/
+example :
+    let e : Fin 1 → Fin 4 → Frac QI := fun _ j =>
+      if j = 0 then ⟨[1], [1, 0]⟩ else if j = 1 then ⟨[QI.I], [1, 0]⟩
+      else if j = 2 then ⟨[0], [1, 0]⟩ else ⟨[2], [1]⟩
+    let e' : Fin 1 → Fin 3 → Frac QI := fun _ j =>
+      if j = 0 then ⟨[1], [1, 0]⟩ else if j = 1 then ⟨[0], [1, 0]⟩ else ⟨[2], [1]⟩
+    let r := dcgainCode partsQI (.tf 1 4 e .cont)
+    let r' := dcgainCode partsQI (.tf 1 3 e' .cont)
+    r.1 = false ∧ r.2 (0 : Fin 1) (0 : Fin 4) = .inf ∧ r.2 (0 : Fin 1) (1 : Fin 4) = .inf ∧
+    r.2 (0 : Fin 1) (2 : Fin 4) = .nan ∧ r.2 (0 : Fin 1) (3 : Fin 4) = .fin 2 ∧
+    r'.1 = true ∧ r'.2 (0 : Fin 1) (0 : Fin 3) = .inf ∧ r'.2 (0 : Fin 1) (1 : Fin 3) = .nan ∧
+    r'.2 (0 : Fin 1) (2 : Fin 3) = .fin 2 := by
+  decide +kernel
+
 /-! ### poles and zeros: what is handed to the root finders -/
 
 /-- a certified candidate is the characteristic polynomial: a monic list of length `n + 1` that
